@@ -23,9 +23,19 @@ def mk(rng, cls, variant=None):
             return t
 
 
+def present_as_token(secret, line):
+    """the secret stands in the line as a token of its own (a replacement that merely begins with the same characters, as two $9$ strings under one
+    salt character do, is not the secret)"""
+    return any(tok.strip("\"';,[]{}") == secret or tok == secret for tok in line.split())
+
+
 def renamed(rng, s, mapping):
     if s not in mapping:
-        mapping[s] = mk(rng, textgen.classify(s), textgen.same_class_variant(s))
+        while True:
+            t = mk(rng, textgen.classify(s), textgen.same_class_variant(s))
+            if (":" in t) == (":" in s):        # line forms such as community-map <name>:<index> end the secret at a colon: keep colon-freeness
+                break
+        mapping[s] = t
     return mapping[s]
 
 
@@ -41,8 +51,9 @@ def run(ctx):
         la, lb, ms, mp = [], [], [], {}
         for tpl, sample in g:
             s = rng.choice(pool + [mk(rng, textgen.classify(sample))])
-            while tpl.startswith("set community") and textgen.classify(s) == "numeric":      # numeric BGP communities are skipped on purpose
-                s = rng.choice(pool)
+            while (tpl.startswith("set community") and textgen.classify(s) == "numeric") or ("community-map" in tpl and ":" in s):
+                # numeric BGP communities are skipped on purpose; in the community-map form the name ends at the first ':' (name:index)
+                s = rng.choice(pool + [mk(rng, "text")])
             enc = rng.choice(secretlib.ENCLOSE[:7]) if '"' not in tpl and rng.random() < 0.3 else ("", "")
             ind, tr = rng.choice(["", " ", "    "]), rng.choice(["", " trailing", " "])
             if "{} " in tpl + " " and tr == " trailing" and tpl.endswith("{}") is False:
@@ -125,9 +136,9 @@ def run(ctx):
             if x != y:
                 ctx.fail("output depends on the secret's content: same line form, secrets %r / %r of the same class" % (s, s2), {"template": tpl, "line_a": ca[11 + j], "line_b": cb[11 + j]}, [x, y], label=lab)
             elif tpl == "second-of-two":
-                if len(s) >= 4 and s in la[j - 1]:
+                if len(s) >= 4 and present_as_token(s, la[j - 1]):
                     ctx.fail("the second of two secrets recognised by one pattern on a line is still present in the output", {"line": ca[11 + j - 1]}, la[j - 1], label="impl")
-            elif len(s) >= 4 and s in x and not secretlib.SCRUB in x:
+            elif len(s) >= 4 and present_as_token(s, x) and not secretlib.SCRUB in x:
                 ctx.fail("the secret value is still present in the output", {"template": tpl, "line": ca[11 + j]}, x, label=lab)
         ga, gb = oa.split("\x05")[1:], ob.split("\x05")[1:]
         if ga != gb:
